@@ -70,6 +70,8 @@ impl<T: TokenStream> ParserBase<T> {
 
     #[inline]
     pub(crate) fn start_node(&mut self, kind: SyntaxKind) {
+        #[cfg(tablegen_lsp_verif)]
+        crate::verif::step();
         self.builder.start_node(kind.into());
     }
 
@@ -90,6 +92,8 @@ impl<T: TokenStream> ParserBase<T> {
 
     #[inline]
     pub(crate) fn peek(&self) -> TokenKind {
+        #[cfg(tablegen_lsp_verif)]
+        crate::verif::step();
         self.current
     }
 
